@@ -2,7 +2,8 @@
 Property C07 - the client speaks DBus only after the server's OK and never stalls in the handshake.
 
 Code model:  Auth/Client.lean  (ClientAuthenticator + client line mode of BasicDBusProtocol, after the
-             repairs fixes/C07-01..04), tables from Gen/ClientAuth.lean.
+             repairs fixes/C07-01..04), tables from Gen/ClientAuth.lean;
+             Auth/Handshake2.lean (section 6: this client model and C06's bus model joined by two byte queues).
 Spec:        Auth/ClientSpec.lean (vocabulary of the statement), Auth/SpecServerRef.lean (reference server).
 
 All theorems about runs quantify over: every preference list, both transport kinds, every environment
